@@ -181,7 +181,13 @@ def producers(ctx):
         def method(self, ev, base, name, args, kwargs, node):
             if isinstance(base, Abs) and base.attrs.get("__gfa__") and \
                     name == "_search_link":
-                return Abs(L, label="obj:link")
+                # a stored link a+ -> b+ (its fields may be read by the
+                # orientation test)
+                return Abs(L, label="obj:link",
+                           from_segment=Abs(S1, label="obj:a", name="a"),
+                           from_orient="+",
+                           to_segment=Abs(S1, label="obj:b", name="b"),
+                           to_orient="+", overlap="ov")
             return super().method(ev, base, name, args, kwargs, node)
     g = gfa(S1)
     segs = [ol("a", "+"), ol("b", "+")]
